@@ -251,7 +251,9 @@ func Check(res *Result) *ReadBack {
 				decoded, err = io.ReadAll(rd)
 			}
 			decErr = err
-			if err == nil {
+			// an unfiltered stream of an unencrypted file is its own decoding: no table entry
+			// (the table is keyed by the raw bytes, which must not be ambiguous)
+			if err == nil && (stm.Dict["Filter"] != nil || res.Cfg.Encrypt) {
 				rb.RawStreams = append(rb.RawStreams, [2][]byte{raw, decoded})
 			}
 		}
